@@ -384,8 +384,41 @@ func nestingSteps(e *emitter) []nstep {
 	return steps
 }
 
+// The hollow variant: structs owned as (empty) leaves at different versions with an empty
+// list beneath them -- nodes of the object that no field set mentions.  (On such a state
+// the add-back loop as first repaired did not terminate, and what it left depended on the
+// order of the versions: findings F20, F22.)
+func hollowSteps(e *emitter, viaUpdates bool) []nstep {
+	vs := []string{"v1", "v2", "v3"}
+	e.rng.Shuffle(3, func(i, j int) { vs[i], vs[j] = vs[j], vs[i] })
+	if viaUpdates {
+		// plain configurations only: the empty containers are written by updaters (each
+		// keeping one version), the applier applies plain configurations
+		return []nstep{
+			{"u", vs[0], false, M{"st": M{}}},
+			{"w", vs[1], false, M{"st": M{"nn": M{}}}},
+			{"c", vs[2], true, M{"st": M{"nn": M{"ee": int64(1)}}}},
+			{"x1", vs[e.rng.Intn(3)], false, M{"st": M{"nn": M{"ee": int64(1), "ff": L{}}}}},
+			{"c", vs[2], true, M{"aa": int64(1)}},
+			{"c", vs[2], true, M{"sset": L{"z"}}},
+		}
+	}
+	inner := M{"ee": int64(1), "ff": L{}}
+	return []nstep{
+		{"a", vs[0], true, M{"st": M{}}},
+		{"b", vs[1], true, M{"st": M{"nn": M{}}}},
+		{"c", vs[2], true, M{"st": M{"nn": inner}}},
+		{"c", vs[2], true, M{"aa": int64(1)}},
+		{"b", vs[1], true, M{"sset": L{"z"}}},
+	}
+}
+
 func runNestingScenario(e *emitter, multi, single *histConf) {
 	steps := nestingSteps(e)
+	if e.rng.Intn(6) == 0 {
+		// C20 is stated for histories of plain configurations
+		steps = hollowSteps(e, true)
+	}
 	stm := newState(multi, "v1")
 	sts := newState(single, "v1")
 	for _, s := range steps {
